@@ -12,7 +12,7 @@ func init() {
 		Level: "exploration",
 		Rule: "cases = generated (logger name, message, severity, caller flag, 0-24 attributes with unique hostile keys and values of every supported kind, groups nested <= 4) " +
 			"from PCG(seed, property, index); each record is captured at a recording writer and decoded by an independent strict JSON walker; " +
-			"Round 12: 7% of the records go through Infof / Warnf / Errorf (with and without operands, percent signs escaped); a quarter of the caller-flag records have no frame behind them (WriteThru with pc 0, a skip count of 1000: an empty or absent caller member, valid JSON all the same). Round 13: three registered titles with capital letters (the expected name is the title that was passed); a severity gated like Always with blank messages; one group object under two parent groups of a record. Round 14: empty and nil lists of instants / durations; more strings that hold NEL (U+0085). Round 15: half of the handler records go through a handler that opened a group before its WithAttrs steps. non-trivial = record decoded and matched AND (has attributes or a non-plain message); distinct = by payload bytes",
+			"Round 12: 7% of the records go through Infof / Warnf / Errorf (with and without operands, percent signs escaped); a quarter of the caller-flag records have no frame behind them (WriteThru with pc 0, a skip count of 1000: an empty or absent caller member, valid JSON all the same). Round 13: three registered titles with capital letters (the expected name is the title that was passed); a severity gated like Always with blank messages; one group object under two parent groups of a record. Round 14: empty and nil lists of instants / durations; more strings that hold NEL (U+0085). Round 15: half of the handler records go through a handler that opened a group before its WithAttrs steps. non-trivial = record decoded and matched AND (has attributes or a non-plain message); distinct = by payload bytes Round 17: a quarter of the records with the caller flag map the source file and directory of the call site (AddKnownPathMapping) to names with backslashes, quotes, a tab or a forged member.",
 		Assumptions: []string{"encoding/json's scanner and decoder (go1.23.5) as the reference for RFC 8259 validity", "user marshallers / value stringers are outside the domain"},
 		Floors:      map[string]int64{"records_decoded": 100, "records_through_the_printf_style_entry_points": 100, "records_without_a_frame_with_the_caller_flag_on": 100},
 		Jobs: func(tier string, seed int64) []Job {
@@ -35,7 +35,7 @@ func init() {
 			"(random leading letter so that groups sort first/middle/last) and values of every supported kind incl. []byte, groups nested <= 3; each payload is tokenised by an independent " +
 			"logfmt tokenizer (strconv.Unquote for quoted values) and every pair compared with what was logged; Round 13: lines (the empty one included) through a std log bridge on a logfmt logger. Round 14: Warnf without operands and two escaped percent signs. Round 15: instants RFC 3339 cannot carry (five-digit year, year before 0, a zone 25 h wide), at the top level and in a group. non-trivial = decoded and matched AND (has attributes or non-plain message); distinct = by payload bytes. " +
 			"Sub-workload handler: logfmt records through the library's log/slog handler, derived in 0-15+ WithGroup/WithAttrs steps, the record through the first of 2-4 siblings; expected tree by log/slog's rules. " +
-			"Follow-ups in main: parent and child binding one key; one group object used twice in a record",
+			"Follow-ups in main: parent and child binding one key; one group object used twice in a record Round 17: every fifth case logs one application-owned group through a logger with a same-named bound group and then through a bare one, and binds one attribute list to two loggers of which one is Set anew: the OTHER logger's record is judged.",
 		Assumptions: []string{"strconv.Unquote (go1.23.5) decodes what a logfmt reader decodes", "production process mode (the multi-line error dump of testing mode is outside the statement)"},
 		Floors:      map[string]int64{"records_decoded": 100, "handler_records_decoded": 1000, "records_with_one_group_object_used_twice": 100},
 		Jobs: func(tier string, seed int64) []Job {
@@ -57,7 +57,7 @@ func init() {
 		Rule: "cases = generated colored records via WriteThru (fixed instant and frame): 15 severities (built-in, registered fg / fg+bg / no colour, unregistered), tag width 1-5, minimal width 16-80, " +
 			"single/multi-line messages with/without trailing newline (70% in the layout domain, 30% with markup or other controls), 0-24 attributes of every kind incl. errors and groups; both process modes. " +
 			"Oracles: SGR terminal-state simulator (default state at every LF and at the end), escape/control skeleton compared with the same record logged with neutralised values, layout parser over the stripped text. " +
-			"Round 12: under go test errors that carry a stack trace stay such (their dump is judged); 12% of the loggers have a timestamp layout of their own (blanks, commas, zone abbreviations); every eleventh case has a chunking destination (48 bytes per call, no error) in front of the recording one. Round 13: all eight combinations of the date/time flags (a record begins with a non-empty timestamp); an attribute list as the value of a plain key; production processes started with DEBUG=1 / DEBUG=on. Round 14: values of a defined string type that hold hostile text. non-trivial = all clauses passed on a decoded record; distinct = by payload bytes Further jobs: processes with the no-color switch on, with NO_COLOR set, with the working directory removed under them. Every fourth caller case also issues a record through one of 14 public entry points from a statement of the harness and checks that the record ends with that call site; 4% of the records carry a value whose MarshalText fails with a hostile error text (judged by the escape/control skeleton only).",
+			"Round 12: under go test errors that carry a stack trace stay such (their dump is judged); 12% of the loggers have a timestamp layout of their own (blanks, commas, zone abbreviations); every eleventh case has a chunking destination (48 bytes per call, no error) in front of the recording one. Round 13: all eight combinations of the date/time flags (a record begins with a non-empty timestamp); an attribute list as the value of a plain key; production processes started with DEBUG=1 / DEBUG=on. Round 14: values of a defined string type that hold hostile text. non-trivial = all clauses passed on a decoded record; distinct = by payload bytes Further jobs: processes with the no-color switch on, with NO_COLOR set, with the working directory removed under them. Every fourth caller case also issues a record through one of 14 public entry points from a statement of the harness and checks that the record ends with that call site; 4% of the records carry a value whose MarshalText fails with a hostile error text (judged by the escape/control skeleton only). Round 17: one more entry-point site - Info as the last instruction of an inlinable helper that is called last in a non-inlined function (file, line and function are the helper's).",
 		Assumptions: []string{"ShortTag and Source.Extract of the library are used to build the expected tag and caller text (their own correctness is C17 / C14 / C18)", "under go test, error texts are generated without control bytes (the multi-line dump prints the error text verbatim by design)"},
 		Floors:      map[string]int64{"records_decoded": 100, "layout_checked": 50, "sgr_sequences_simulated": 1000},
 		Jobs: func(tier string, seed int64) []Job {
@@ -82,7 +82,7 @@ func init() {
 		Level: "exploration",
 		Rule: "cases = generated logger chains of depth 1-4 (own-attribute lists of 0-20 incl. empty ones at every position, set through SetAttrs/SetAttrs1/Set), 0-5 registered context keys (string and Stringer, present/absent, nil context), " +
 			"0-64 call arguments (Attr objects and key,value pairs) over a small key space so that keys collide, groups with colliding members, inherit flag on/off, all three formats; every value carries its source tag; " +
-			"the decoded ordered (dotted key, value) list must equal the reference merge (last occurrence wins, ascending order at every level). Round 12: two cases in five with context keys run under a cancelled / expired context that still holds its values; in 20% of the cases the process's default logger (no ancestor of the chain) holds attributes of its own. Round 13: context keys whose printed name is empty (JSON); records through Log(ctx, log/slog level, ...). Round 14: half of the calls without arguments go through Infof (no context of its own); the empty key as the key of a plain pair. Round 15: loggers made with the empty name and positional attributes in the same New call. non-trivial = decoded, matched and at least one attribute; distinct = by the source lists",
+			"the decoded ordered (dotted key, value) list must equal the reference merge (last occurrence wins, ascending order at every level). Round 12: two cases in five with context keys run under a cancelled / expired context that still holds its values; in 20% of the cases the process's default logger (no ancestor of the chain) holds attributes of its own. Round 13: context keys whose printed name is empty (JSON); records through Log(ctx, log/slog level, ...). Round 14: half of the calls without arguments go through Infof (no context of its own); the empty key as the key of a plain pair. Round 15: loggers made with the empty name and positional attributes in the same New call. non-trivial = decoded, matched and at least one attribute; distinct = by the source lists Round 17: every sixth case draws its keys in pairs that differ in the case of one letter only.",
 		Assumptions: []string{"the decoders of C04/C05/C06 (independent JSON walker, logfmt tokenizer, SGR stripper)"},
 		Floors:      map[string]int64{"records_decoded": 100, "records_with_13plus_attrs": 20, "inheriting_child_without_own_attrs": 5},
 		Jobs: func(tier string, seed int64) []Job {
@@ -119,7 +119,7 @@ func init() {
 		Level: "exploration",
 		Rule: "a reference model of the writer configuration (normal list, error list, per-level lists, package defaults for a logger never given writers) is advanced with each operation sequence; the sequence is applied to a fresh root and to a child of a configured parent, as methods and (when every operation has one) as New(...) options; " +
 			"then - for the method form after EVERY operation, so that records emitted between reconfigurations are part of the history - one probe record with a unique id is issued at each of 20 severities (built-ins; custom levels with the error device - also with values 64, 1000 and -5 and one that is gated like Info -, without it, gated like Error but without the error device, unregistered) through LogAttrs, 5 more through verbs and Print/Println and 4 blank-line forms and the per-writer Write counts (recording writers of 6 shapes, fds 1/2 redirected onto files) must equal the selected list; LevelSettable destinations must have been told the severity before each Write. " +
-			"exh: ALL sequences up to the length bound over a reduced alphabet (40 operations over 4 writers incl. a real *os.File); rand: random sequences of 3-10 operations over the full alphabet (8 writers of 7 shapes, 8 levels, plus children derived with WithWriter / WithErrorWriter and reconfigured, which must leave the receiver alone). A failing sequence is shrunk by dropping operations. Round 13: probes that carry an error with a stack trace (and a go-test job, where its details follow the record); two pool members are size-capped sinks in every other sequence (40 bytes per Write, no error); after every sequence another logger that was reset to the package defaults has what its getters hand out closed, and a never-configured logger is probed. Round 15: after every sequence a logger whose normal destination issues an Error record through it from inside its Write. non-trivial = every judged (logger kind, form, sequence); distinct = by that triple",
+			"exh: ALL sequences up to the length bound over a reduced alphabet (40 operations over 4 writers incl. a real *os.File); rand: random sequences of 3-10 operations over the full alphabet (8 writers of 7 shapes, 8 levels, plus children derived with WithWriter / WithErrorWriter and reconfigured, which must leave the receiver alone). A failing sequence is shrunk by dropping operations. Round 13: probes that carry an error with a stack trace (and a go-test job, where its details follow the record); two pool members are size-capped sinks in every other sequence (40 bytes per Write, no error); after every sequence another logger that was reset to the package defaults has what its getters hand out closed, and a never-configured logger is probed. Round 15: after every sequence a logger whose normal destination issues an Error record through it from inside its Write. non-trivial = every judged (logger kind, form, sequence); distinct = by that triple Round 17: after every sequence a by-value LevelSettable fan-out destination whose type holds a slice sits behind another destination in both classes of a fresh logger: told the severity, handed the record, no panic.",
 		Assumptions: []string{"a removal that meets several copies of the writer may leave k-1 or 0 copies", "the package-level default writer itself is not reconfigured"},
 		Floors:      map[string]int64{"probes": 5000, "write_events": 3000, "fallback_bytes": 1000, "levelsettable_writes": 100},
 		Exhaustive:  func(string) bool { return true },
@@ -200,7 +200,7 @@ func init() {
 		Level: "exploration", 
 		Rule: "one case = one history of 5-60 operations (New named/anonymous/colliding with options, 11 With* calls, 11 Set* calls incl. writers, skip, context keys) applied to random loggers of a growing forest (two detached roots and a fresh default logger); a reference tree model is advanced in lock-step. " +
 			"After EVERY operation: (isolation, model-free) every logger other than the receiver of a Set* emits byte-identical WriteThru probe output to the same destination as before; (model) every logger's Level/JSONMode/ColorMode/Skip/Name/Parent/Root and its decoded probe (format class, name, timestamp in the modelled zone/layout, attributes, destination incl. redirected stdout) equal the model; " +
-			"context keys through a PrintContext probe; Each/Sublogger against the model subtree. Sub-workload deflevel (own pristine processes, both process modes): package New starts parentless, colored, at the package default level (Warn in production, Debug under go test) and follows SetLevel - also when the default logger's own level was set to the next argument first (a Set on one logger) and in production processes whose environment carries DEBUG with a value that says no or whose command line carries an argument that starts with -bench. Names include ones as long as an import path; Sublogger is also asked for a name BEFORE it exists, from every ancestor, and again after its creation. Round 12: operations Close() on a logger that never got writers; registered severities with a treated-as entry as thresholds. Round 13: Close() on loggers of the tree that own no writers (drawn three times as often); WithSkip on a logger that has writers followed by AddWriter on the child. Round 14: PanicLevel as a creation option; SaveLevelAndSet windows (with a SetLevel inside) in the default-level sub-workload; Sublogger lookups of a case variant of an existing name. non-trivial = completed history; distinct = by history big: trees that are big in one dimension (4090-9000 direct children of one logger, anonymous or named; derivation chains of 99-1000 links; bushy trees of 1600-5600 loggers) against the creation history kept by the harness: Each from several starting points visits every logger of the subtree exactly once at its depth, Parent/Root are those of the creation, Sublogger(name) and New(name) hand out the existing child (the late-coming anonymous ones included)",
+			"context keys through a PrintContext probe; Each/Sublogger against the model subtree. Sub-workload deflevel (own pristine processes, both process modes): package New starts parentless, colored, at the package default level (Warn in production, Debug under go test) and follows SetLevel - also when the default logger's own level was set to the next argument first (a Set on one logger) and in production processes whose environment carries DEBUG with a value that says no or whose command line carries an argument that starts with -bench. Names include ones as long as an import path; Sublogger is also asked for a name BEFORE it exists, from every ancestor, and again after its creation. Round 12: operations Close() on a logger that never got writers; registered severities with a treated-as entry as thresholds. Round 13: Close() on loggers of the tree that own no writers (drawn three times as often); WithSkip on a logger that has writers followed by AddWriter on the child. Round 14: PanicLevel as a creation option; SaveLevelAndSet windows (with a SetLevel inside) in the default-level sub-workload; Sublogger lookups of a case variant of an existing name. non-trivial = completed history; distinct = by history big: trees that are big in one dimension (4090-9000 direct children of one logger, anonymous or named; derivation chains of 99-1000 links; bushy trees of 1600-5600 loggers) against the creation history kept by the harness: Each from several starting points visits every logger of the subtree exactly once at its depth, Parent/Root are those of the creation, Sublogger(name) and New(name) hand out the existing child (the late-coming anonymous ones included) Round 17: 30% of the New(name) operations are handed ONE WithWriter option value that the environment built once.",
 		Assumptions: []string{"default flags (LlocalTime set): an unset UTC mode means the instant's own zone", "SetTimeFormat is only called with explicit non-empty layouts"},
 		Floors:      map[string]int64{"operations": 2000, "isolation_comparisons": 10000, "model_comparisons": 10000, "lookups": 100, "default_level_checks": 10, "big_tree_loggers": 20000},
 		Jobs: func(tier string, seed int64) []Job {
